@@ -163,7 +163,7 @@ fn c12_q_event_epoch_load_roundtrip() {
 #[cfg_attr(kani, kani::proof)]
 #[cfg_attr(kani, kani::unwind(10))]
 #[cfg_attr(not(kani), test)]
-fn c12_t_event_number_schedule4() {
+fn c12_x_event_number_schedule4() {
     let mut ev: EventsInner<16> = EventsInner::new();
     let kv = Kv::new();
     if any_bool() {
